@@ -4,7 +4,7 @@ import vlib, inv
 from vlib import Result, log
 from arena import Arena
 
-THEOREMS = ["C10_finite_size", "cyclicb_complete", "cyclicb_sound", "C10_nonvacuous"]
+THEOREMS = ["C10_finite_size", "C10_marking_exact", "cyclicb_complete", "cyclicb_sound", "C10_nonvacuous"]
 TARGETS = ["Props/C10.v", "Extract/C10.v"]
 NAMES = ["Aa", "Bb", "Cc", "Dd", "Ee"]
 KINDS = ["req", "opt", "arr", "map", "iun", "nul", "iob", "aio", "riu"]
@@ -357,7 +357,7 @@ def main(tier, seed, replay=None):
     res = Result("C10", tier, seed)
     vlib.build_repo()
     vlib.build_vtool()
-    coq_ok, out = vlib.standard_coq_obligations(res, TARGETS, THEOREMS, expect_closed=3)
+    coq_ok, out = vlib.standard_coq_obligations(res, TARGETS, THEOREMS, expect_closed=4)
     exe = vlib.ocaml_build("c10")
     res.oblige("extracted model (collect, fingerprints, marks) builds", exe is not None)
     rng = random.Random(seed * 1009 + 10)
